@@ -859,7 +859,7 @@ pub struct InvState {
     pub failed_fsync: BTreeSet<Ino>,
     pub episodes: Vec<Episode>,
     /// per process: index of the episode in progress and its phase
-    open_ep: BTreeMap<usize, (usize, i32, bool)>,
+    open_ep: BTreeMap<i64, (usize, i32, bool)>,
 }
 
 /// One maintenance pass over a cache or shard directory, cut out of the
@@ -878,6 +878,12 @@ pub struct Episode {
     pub before_all: Vec<crate::sc_model::Entry>,
     pub unlinked: Vec<String>,
     pub restamped: Vec<(String, kismet_vfs::simfs::Ts, kismet_vfs::simfs::Ts)>,
+    /// non-directory, non-dot entries the pass managed to stat while listing
+    pub listed: usize,
+    /// unlink calls issued from this listing (whatever their result)
+    pub unlink_attempts: usize,
+    /// some entry vanished under the pass (stat or unlink said ENOENT/ESTALE)
+    pub raced: bool,
 }
 
 impl Episode {
@@ -1074,12 +1080,26 @@ pub fn make_observer(cfg: InvCfg, state: Arc<Mutex<InvState>>) -> k::Observer {
 
 fn track_episode(dirs: &[DirSpec], st: &mut InvState, fs: &SimFs, r: &Rec) {
     // an episode in progress for this process?
-    if let Some((idx, fd, listing)) = st.open_ep.get(&r.proc).copied() {
+    // one episode at a time per participant (threads sharing a process
+    // maintain independently)
+    let who: i64 = (r.part as i64 + 1) * 10_000 + r.proc as i64;
+    if let Some((idx, fd, listing)) = st.open_ep.get(&who).copied() {
         if listing {
+            if r.kind == K::FstatAt {
+                let name = r.raw.rsplit('/').next().unwrap_or("");
+                if r.err == 0 {
+                    let is_dir = fs.inodes.get(&r.ino).map(|i| i.is_dir()).unwrap_or(false);
+                    if !is_dir && !name.starts_with('.') {
+                        st.episodes[idx].listed += 1;
+                    }
+                } else if r.err == libc::ENOENT || r.err == libc::ESTALE {
+                    st.episodes[idx].raced = true;
+                }
+            }
             match r.kind {
                 K::Readdir | K::FstatAt => return,
                 K::Closedir if r.fd == fd => {
-                    st.open_ep.insert(r.proc, (idx, fd, false));
+                    st.open_ep.insert(who, (idx, fd, false));
                     return;
                 }
                 _ => {}
@@ -1093,10 +1113,16 @@ fn track_episode(dirs: &[DirSpec], st: &mut InvState, fs: &SimFs, r: &Rec) {
             let in_dir = |p: &str| split_parent_str(p).map(|(d, n)| (d == dir, n)).unwrap_or((false, String::new()));
             match r.kind {
                 K::Unlink => {
-                    let (same, name) = in_dir(&r.path);
+                    // (the canonical path of a vanished file does not
+                    // resolve: fall back to the path as given)
+                    let p = if r.path.is_empty() { r.raw.clone() } else { r.path.clone() };
+                    let (same, name) = in_dir(&p);
                     if same {
+                        st.episodes[idx].unlink_attempts += 1;
                         if r.err == 0 {
                             st.episodes[idx].unlinked.push(name);
+                        } else if r.err == libc::ENOENT || r.err == libc::ESTALE {
+                            st.episodes[idx].raced = true;
                         }
                         return;
                     }
@@ -1115,7 +1141,7 @@ fn track_episode(dirs: &[DirSpec], st: &mut InvState, fs: &SimFs, r: &Rec) {
                 }
                 _ => {}
             }
-            st.open_ep.remove(&r.proc);
+            st.open_ep.remove(&who);
         }
     }
     if r.kind == K::Opendir && r.err == 0 {
@@ -1133,10 +1159,13 @@ fn track_episode(dirs: &[DirSpec], st: &mut InvState, fs: &SimFs, r: &Rec) {
                 before_all: dir_entries(fs, &r.path, false),
                 unlinked: Vec::new(),
                 restamped: Vec::new(),
+                listed: 0,
+                unlink_attempts: 0,
+                raced: false,
             };
             st.episodes.push(ep);
             let idx = st.episodes.len() - 1;
-            st.open_ep.insert(r.proc, (idx, r.ret as i32, true));
+            st.open_ep.insert(who, (idx, r.ret as i32, true));
         }
     }
 }
